@@ -88,7 +88,268 @@ def c13(out, tier):
     })
 
 
-PROPS = {"C07": c07, "C13": c13}
+# ---------------------------------------------------------------- engine M properties (HTML tokenizer)
+TOK_SRC = ["html5ever/src/tokenizer/mod.rs", "html5ever/src/tokenizer/char_ref/mod.rs", "html5ever/src/tokenizer/states.rs",
+           "html5ever/src/tokenizer/interface.rs", "html5ever/src/util/str.rs", "html5ever/src/macros.rs", "web_atoms/build.rs",
+           "web_atoms/entities.rs"]
+BASE = {"exact_errors": False, "discard_bom": True, "profile": False, "last_start_tag": [97], "on_start": "Continue",
+        "foreign": False, "simd": True}
+M_ASSUME = [
+    "engine M interprets the MIR rustc dumps from /repo's working tree (cargo +nightly rustc -Zunpretty=mir, debug-assertions off, overflow-checks on); functions outside the crate are native models (list: coverage.models_used)",
+    "Tendril / BufferQueue are modelled as character lists / a flat stream; C11 and C13 check the real types against exactly these semantics",
+    "the SSE2 stride loop is summarised by its contract (first stop byte / LF count); buffers here are shorter than one stride so only the interpreted scalar tail runs",
+    "log/trace!/format! are no-ops (message wording is not observed); the sink answers by a fixed policy per run",
+    "every symbolic character has a fixed UTF-8 length class per run (class vectors listed in bounds); within its class it is an arbitrary Unicode scalar value",
+    "the interpreter is validated on every run: concrete executions of it are compared token-for-token with the natively built tokenizer (coverage.traces_validated_against_impl)",
+]
+
+
+def tok_setup(out):
+    from lib import tokchecks as TC
+    from mirsym import build, tok, models as MD
+    from mirsym.program import Program
+    mir, ent, dt = build.dump_mir("html5ever")
+    prog = Program(mir, C.REPO, "html5ever", MD.M)
+    tok.load_entities(prog, ent)
+    exe = build.replay_binary("dev")
+    exe_rel = build.replay_binary("release")
+    out.extra["mir_dump_s"] = round(dt, 1)
+    out.extra["mir_lines"] = sum(1 for _ in open(mir, errors="replace"))
+    out.extra["source_hash"] = C.src_hash(TOK_SRC)
+    out.extra["source_files"] = TOK_SRC
+    return TC, tok, prog, mir, ent, exe, exe_rel
+
+
+def self_validate(out, tok, prog, exe, n, seed):
+    """Serval-style guard: run the interpreter concretely and compare with the native build."""
+    import random
+    rnd = random.Random(1000 + seed)
+    states = tok.all_states(prog)
+    alpha = "<>/!-=&#;\"' \t\n\r\0aAzZxX09?]\u00e9\ufeff\ufffd\U0001F600"
+    words = ["script", "DOCTYPE", "PUBLIC", "SYSTEM", "[CDATA[", "--", "amp;", "amp", "lt", "notin;", "notit;", "#x41;", "#65",
+             "#0;", "#x110000;", "#xD800", "#128;", "html", "title", "</", "<!", "]]>", "<a b=c>", "<!--", "-->"]
+    bad = []
+    for it in range(n):
+        st = rnd.choice(states) if rnd.random() < 0.7 else "Data"
+        s = ""
+        for _ in range(rnd.randint(0, 6)):
+            s += rnd.choice(words) if rnd.random() < 0.35 else rnd.choice(alpha)
+        chs = [ord(c) for c in s]
+        cuts = sorted(rnd.sample(range(len(chs) + 1), min(len(chs) + 1, rnd.randint(0, 3))))
+        chunks, prev = [], 0
+        for c in cuts + [len(chs)]:
+            chunks.append(chs[prev:c])
+            prev = c
+        on = rnd.choice(["Continue", "Continue", "Plaintext", "Script", ("RawData", "Rcdata"), ("RawData", "ScriptData"), ("RawData", "Rawtext")])
+        cfg = tok.Cfg(state=st, exact_errors=rnd.random() < 0.3, discard_bom=rnd.random() < 0.7,
+                      last_start_tag=rnd.choice([None, [97], [ord(c) for c in "script"], [ord(c) for c in "title"]]),
+                      sink=tok.SinkCfg(on_start=on, foreign=rnd.random() < 0.3), chunks=chunks)
+        try:
+            r, _, _ = tok.run_one(prog, cfg, [], chs)
+            mine = tok.raw_text(r.tokens) + ["feeds " + ",".join(r.feed_results)] if r.outcome == "ok" else ["OUTCOME " + r.outcome]
+        except Exception as e:
+            mine = ["EXC " + str(e)[:200]]
+        nat = tok.native_run(exe, tok.case_text(cfg, chunks))
+        if mine != nat:
+            bad.append({"state": tok.state_spec(st), "input": s, "chunks": [len(c) for c in chunks], "mine": mine[:6], "native": nat[:6]})
+    out.extra["traces_validated_against_impl"] = n
+    if bad:
+        out.inconclusive.append("encoder self-validation: %d of %d concrete runs of the interpreter differ from the native tokenizer, e.g. %r" % (len(bad), n, bad[0]))
+    return not bad
+
+
+def tok_finish(out, TC, tok, results, exe, exe_rel, prop, keep_err, what, bounds, compare=True):
+    npaths = sum(r["paths"] for r in results)
+    out.queries += sum(r["queries"] for r in results)
+    obl = sum(r["obligations"] for r in results)
+    models_used = sorted(set(x for r in results for x in r.get("models_used", [])))
+    for r in results:
+        for e in r["errors"]:
+            out.inconclusive.append("%s: %s" % (r["unit"], e[:300]))
+    seen = set()
+    nviol = 0
+    for r in results:
+        for v in (r["violations"] if compare else [x for x in r["violations"] if x.get("label") == "line-oracle"]):
+            key = "%s|%s|%s" % (prop, v["label"].split(" ")[0], v["state"])
+            if key in seen:
+                continue
+            seen.add(key)
+            if v.get("variant") is None:
+                # oracle violation on a single configuration (line numbers): replay = show the native tokens
+                cfg = TC.mk_cfg(v["base"])
+                chunks = TC.split(v["chars"], v["lens"]) if v.get("lens") else [v["chars"]]
+                nat = TC.native_obs(exe, cfg, chunks)
+                ok = native_line_check(v["chars"], nat)
+                if ok:
+                    out.inconclusive.append("line-oracle counter-example %r does not reproduce natively (native: %r)" % (v["chars"], nat[:6]))
+                    continue
+                out.violation("%s [start state %s, input %r, chunks %s] native tokens: %s" % (v["what"], v["state"], chs(v["chars"]), v.get("lens"), nat[:8]),
+                              {"engine": "mirsym", "kind": "line-oracle", "case": tok.case_text(cfg, chunks), "chars": v["chars"], "native": nat}, key)
+                continue
+            rep = TC.replay_diff(v, exe, exe_rel, keep_err)
+            if any(x.get("differs") for x in rep.values()):
+                out.violation("%s: %s differs from the base run [start state %s, input %r, %s]: base %s | variant %s" % (
+                    what, v["label"], v["state"], chs(v["chars"]), "variant input skips %d char(s)" % v["skip"] if v.get("skip") else "same input",
+                    rep["dev"]["base"][:6], rep["dev"]["variant"][:6]),
+                    {"engine": "mirsym", "kind": "diff", "v": v, "native": rep}, key)
+            else:
+                out.inconclusive.append("counter-example does not reproduce natively (model/encoding problem, not reported): %s %s %r" % (v["label"], v["state"], v["chars"]))
+        for pn in r["panics"]:
+            key = "%s|panic|%s|%s" % (prop, pn["state"], pn["what"][:40])
+            if key in seen:
+                continue
+            seen.add(key)
+            if pn["chars"] is None:
+                out.inconclusive.append("panic path without model: %s" % pn["what"])
+                continue
+            cfg = TC.mk_cfg(pn["cfg"])
+            chunks = TC.split(pn["chars"], pn["lens"]) if pn.get("lens") else [pn["chars"]]
+            nat = TC.native_obs(exe, cfg, chunks)
+            natr = TC.native_obs(exe_rel, cfg, chunks)
+            bad = [n for n in (nat, natr) if any(l.startswith("PANIC") or "QUEUE-NOT-EMPTY" in l for l in n) or sum(1 for l in n if l.startswith("EOF")) != 1]
+            if bad:
+                out.violation("totality: %s [start state %s, input %r, chunks %s] native: %s" % (pn["what"], pn["state"], chs(pn["chars"]), pn.get("lens"), bad[0][-3:]),
+                              {"engine": "mirsym", "kind": "panic", "case": tok.case_text(cfg, chunks), "native": nat}, key)
+            else:
+                out.inconclusive.append("panic/totality path does not reproduce natively: %s %s %r" % (pn["what"], pn["state"], pn["chars"]))
+    out.units.append({"engine": "mirsym (MIR symbolic executor) + z3 " + __import__("z3").get_version_string(), "what": what, "bounds": bounds,
+                      "work_units": len(results), "paths_explored": npaths, "obligations": obl,
+                      "unit_wall_s_total": round(sum(r["wall"] for r in results), 1)})
+    out.extra["models_used"] = models_used
+    out.assumptions += M_ASSUME
+    return npaths, obl
+
+
+def chs(cc):
+    return "".join(chr(c) if 32 <= c < 127 else "\\u{%x}" % c for c in cc)
+
+
+def native_line_check(chars, nat):
+    """True iff the native EOF line equals 1 + line breaks (used to confirm line-oracle counter-examples at EOF level);
+    per-token positions are not observable natively, so a token-level alarm is confirmed by comparing with a
+    single-character-per-feed run in which every token is emitted before any further input exists"""
+    n = 0
+    for i, c in enumerate(chars):
+        if c == 13 or (c == 10 and not (i > 0 and chars[i - 1] == 13)):
+            n += 1
+    eof = [l for l in nat if l.startswith("EOF")]
+    return bool(eof) and eof[-1].endswith("@%d" % (n + 1))
+
+
+def tok_units(TC, tok, prog, k, classes_list, variants, bases, **kw):
+    units = []
+    for st in tok.all_states(prog):
+        for cls in classes_list:
+            for base in bases:
+                u = {"kind": kw.get("kind", "tok"), "state": st, "k": k, "classes": cls, "base": base, "variants": variants(k, cls)}
+                u.update({x: y for x, y in kw.items() if x != "kind"})
+                units.append(u)
+    rnd = __import__("random").Random(C.seed())
+    rnd.shuffle(units)     # the seed only changes scheduling
+    return units
+
+
+def chunk_variants(TC):
+    def f(k, cls):
+        vs = [("chunks%s" % c, {}, c) for c in TC.compositions(k) if len(c) > 1]
+        vs += [("chunks[0,%d]" % k, {}, [0, k]), ("chunks[1,0,%d]" % (k - 1), {}, [1, 0, k - 1])]
+        return vs
+    return f
+
+
+def finish_mc(out, npaths, obl, nstates, what_samples):
+    return out.finish("model_checking", {
+        "states": max(1, nstates), "transitions": max(1, npaths),
+        "traces_validated_against_impl": out.extra.get("traces_validated_against_impl", 0),
+        "evaluations": max(1, out.queries), "distinct_nontrivial": max(2, npaths),
+        "rule": "states = tokenizer start states walked concretely; transitions = distinct feasible paths of the interpreted MIR (each has its own path condition over the symbolic characters); evaluations = z3 queries; obligations = per-path-pair equalities / oracles discharged",
+        "obligations": obl, "samples": what_samples,
+        "functions_encoded": "Tokenizer::{new,feed,run,step,step_char_ref_tokenizer,process_char_ref,end,eof_step,get_char,get_preprocessed_char,pop_except_from,eat,peek,discard_char,emit_*,create_tag,discard_tag,create_attribute,finish_attribute,have_appropriate_end_tag,doctype_id,clear_doctype_id,bad_char_error,bad_eof_error,data_state_simd_fast_path,process_token*}, char_ref::CharRefTokenizer::*, util::str::lower_ascii_letter, option_push (all interpreted from MIR)",
+    })
+
+
+def c03(out, tier):
+    TC, tok, prog, mir, ent, exe, exe_rel = tok_setup(out)
+    if not self_validate(out, tok, prog, exe, 300 if tier == "quick" else 1500, C.seed()):
+        return finish_mc(out, 0, 0, 0, ["self-validation failed"])
+    k = 2 if tier == "quick" else 3
+    classes = [[1] * k, [1, 3] + [1] * (k - 2)] + ([[3] + [1] * (k - 1), [1, 2, 4][:k]] if tier == "thorough" else [])
+    bases = [BASE, dict(BASE, exact_errors=True), dict(BASE, on_start="Script"), dict(BASE, on_start=("RawData", "Rcdata"))]
+    units = tok_units(TC, tok, prog, k, classes, chunk_variants(TC), bases, kind="C03", keep_errors=True, line_oracle=False)
+    res = TC.run_units(units, mir, ent)
+    bounds = "all %d start states x %d symbolic characters (UTF-8 class vectors %s) x every split into non-empty chunks plus empty chunks at the front and in the middle x {default, exact_errors, sink answers Script, sink answers RawData(Rcdata)}; then EOF" % (
+        len(tok.all_states(prog)), k, classes)
+    npaths, obl = tok_finish(out, TC, tok, res, exe, exe_rel, "C03", True, "chunked run vs one-piece run (tokens, parse errors, per-token line numbers)", bounds)
+    out.assumptions += ["outside the bound: inputs longer than %d characters after the start state; text injected at script suspension; the tree half (follows from token-stream equality, TreeBuilder sees only (token, line) pairs)" % k]
+    return finish_mc(out, npaths, obl, len(tok.all_states(prog)), [{"bounds": bounds}])
+
+
+def c04(out, tier):
+    TC, tok, prog, mir, ent, exe, exe_rel = tok_setup(out)
+    if not self_validate(out, tok, prog, exe, 300 if tier == "quick" else 1500, C.seed() + 1):
+        return finish_mc(out, 0, 0, 0, ["self-validation failed"])
+    k = 2 if tier == "quick" else 3
+    classes = [[1] * k, [3] + [1] * (k - 1)]
+    bases = [dict(BASE, on_start=o, exact_errors=e, foreign=f, last_start_tag=l)
+             for o in ("Continue", "Plaintext", "Script", ("RawData", "Rcdata"), ("RawData", "Rawtext"), ("RawData", "ScriptData"))
+             for e in (False, True) for (f, l) in ((False, [97]), (True, None))]
+    def vs(k_, cls):
+        return [("chunks%s" % c, {}, c) for c in TC.compositions(k_) if len(c) == k_] + [("simd-off", {"simd": False}, None)]
+    units = tok_units(TC, tok, prog, k, classes, vs, bases, kind="C04", compare=False, line_oracle=False)
+    res = TC.run_units(units, mir, ent)
+    bounds = "HTML tokenizer: all %d start states x %d symbolic characters x {whole, one character per feed, SIMD off} x 6 sink answers x exact_errors x (foreign, last start tag); then end()" % (len(tok.all_states(prog)), k)
+    npaths, obl = tok_finish(out, TC, tok, res, exe, exe_rel, "C04", True, "no panic / unreachable / failed assert / overflow / RefCell double borrow on any path; feed returns Done only with the queue empty; exactly one EOF, last; bounded step count (livelock guard)", bounds, compare=False)
+    out.assumptions += ["claimed for the HTML tokenizer only; tree builders, XML, stack depth and memory exhaustion are outside this check (see level_note)"]
+    return finish_mc(out, npaths, npaths, len(tok.all_states(prog)), [{"bounds": bounds}])
+
+
+def c08(out, tier):
+    TC, tok, prog, mir, ent, exe, exe_rel = tok_setup(out)
+    if not self_validate(out, tok, prog, exe, 300 if tier == "quick" else 1500, C.seed() + 2):
+        return finish_mc(out, 0, 0, 0, ["self-validation failed"])
+    k = 2 if tier == "quick" else 3
+    classes = [[1] * k, [2] + [1] * (k - 1)] + ([[1, 3, 1][:k], [4] + [1] * (k - 1)] if tier == "thorough" else [])
+    def vs(k_, cls):
+        return [("exact_errors", {"exact_errors": True}, None), ("simd-off", {"simd": False}, None), ("profile", {"profile": True}, None),
+                ("exact_errors+chunks", {"exact_errors": True}, [1] * k_)]
+    bases = [BASE, dict(BASE, on_start=("RawData", "ScriptData"))]
+    units = tok_units(TC, tok, prog, k, classes, vs, bases, kind="C08", keep_errors=False, line_oracle=False)
+    # discard_bom: no effect unless the very first character is U+FEFF; if it is, equal to the run without it
+    def vb(k_, cls):
+        return [("discard_bom-off", {"discard_bom": False}, None)]
+    def vb2(k_, cls):
+        return [("discard_bom-drops-only-first", {"discard_bom": False}, None, {"skip": 1})]
+    cls3 = [[3] + [1] * (k - 1)]
+    units += tok_units(TC, tok, prog, k, [[1] * k] + cls3, vb, [BASE], kind="C08bom", keep_errors=True, forbid_first=0xFEFF)
+    units += tok_units(TC, tok, prog, k, cls3, vb2, [BASE], kind="C08bom1", keep_errors=True, force=[(0, 0xFEFF)])
+    res = TC.run_units(units, mir, ent)
+    bounds = "all %d start states x %d symbolic characters (class vectors %s): exact_errors on/off, SIMD path on/off, profile on/off (clock stub), exact_errors under one-character feeds; discard_bom on/off with first character != U+FEFF, and == U+FEFF against the input without it" % (len(tok.all_states(prog)), k, classes)
+    npaths, obl = tok_finish(out, TC, tok, res, exe, exe_rel, "C08", False, "option variant vs default (tokens minus ParseError, line numbers)", bounds)
+    out.assumptions += ["drop_doctype (tree builder) and the XML tokenizer's options are not covered by this check (C15 covers XML exact_errors)",
+                        "profile: Instant/Duration are stubbed (every duration 0 ns), so only control flow through the profiling run loop is compared",
+                        "the >=16-byte SSE2 stride loop itself is outside engine M's bound (summarised by contract)"]
+    return finish_mc(out, npaths, obl, len(tok.all_states(prog)), [{"bounds": bounds}])
+
+
+def c09(out, tier):
+    TC, tok, prog, mir, ent, exe, exe_rel = tok_setup(out)
+    if not self_validate(out, tok, prog, exe, 300 if tier == "quick" else 1500, C.seed() + 3):
+        return finish_mc(out, 0, 0, 0, ["self-validation failed"])
+    k = 2 if tier == "quick" else 3
+    classes = [[1] * k]
+    def vs(k_, cls):
+        return [("chunks%s" % ([1] * k_), {}, [1] * k_), ("exact_errors", {"exact_errors": True}, None)]
+    bases = [BASE, dict(BASE, on_start=("RawData", "Rawtext"))]
+    units = tok_units(TC, tok, prog, k, classes, vs, bases, kind="C09", keep_errors=False, line_oracle=True)
+    res = TC.run_units(units, mir, ent)
+    bounds = "all %d start states x %d symbolic ASCII characters (CR, LF and CRLF arise as values of the symbolic characters) x {whole, one character per feed, exact_errors}: for every emitted token, line == 1 + #line breaks in the characters the input queue had handed out at emission" % (len(tok.all_states(prog)), k)
+    npaths, obl = tok_finish(out, TC, tok, res, exe, exe_rel, "C09", False, "per-token line-number oracle", bounds)
+    out.assumptions += ["'consumed' = characters popped from the BufferQueue model (characters parked by look-ahead and pushed back count as unread)",
+                        "SIMD newline popcount for buffers >= 16 bytes: by contract only"]
+    return finish_mc(out, npaths, obl, len(tok.all_states(prog)), [{"bounds": bounds}])
+
+
+PROPS = {"C07": c07, "C13": c13, "C03": c03, "C04": c04, "C08": c08, "C09": c09}
 
 
 def replay(path):
